@@ -488,16 +488,29 @@ def c10(tier):
     }
 
 
+def bsi_model(name, mode, depth=1, sim=None):
+    cfg = ('SPECIFICATION Spec\nCONSTANTS\n  Mode = "%s"\n  Depth = %d\n  NC = 3\n  VNeg = 2\n  VMax = 1\n'
+           'INVARIANT TypeOK\nPROPERTY QueriesPure\nACTION_CONSTRAINT EmitStep\nCHECK_DEADLOCK FALSE\n') % (mode, depth)
+    m = {'name': name, 'module': 'MCBSI.tla', 'cfg_text': cfg, 'workers': 4, 'deps': ('BSI.tla',)}
+    if sim:
+        m['mode'] = 'simulate'
+        m['sim'] = sim
+    return m
+
+
 def c19(tier):
     q = tier == 'quick'
     return {
-        'rule': 'BSI.tla: both BSI implementations as a partial map column -> integer; random histories of SetValue/SetBigValue, SetMany, ClearValues, Retain, ParOr on disjoint columns, Add/Increment on non-negative values, Clone, NewBSIRetainSet, MarshalBinary and WriteTo round trips over 6 columns spread over chunks/buckets, abstract values -8..7 scaled by 2^k (k in 0..55, and 70 through the big-value API), auto-sized and fixed-width indexes; after EVERY call the map read back through GetValue/GetBigValue/GetValues/ValueExists/GetCardinality is compared with the specified map by TLC (TraceBSI.tla), plane-within-existence checked on the raw planes',
+        'rule': 'BSI.tla: both BSI implementations as a partial map column -> integer; MCBSI.tla (TLC): every update/copy call from every map over 3 columns x values -2..1 (125 states x 3 second operands) and simulated 10-step histories, replayed on both implementations under random concretisations; random histories of SetValue/SetBigValue, SetMany, ClearValues, Retain, ParOr on disjoint columns, Add/Increment on non-negative values, Clone, NewBSIRetainSet, MarshalBinary and WriteTo round trips over 6 columns spread over chunks/buckets, abstract values -8..7 scaled by 2^k (k in 0..55, and 70 through the big-value API), auto-sized and fixed-width indexes; after EVERY call the map read back through GetValue/GetBigValue/GetValues/ValueExists/GetCardinality is compared with the specified map by TLC (TraceBSI.tla), plane-within-existence checked on the raw planes',
         'assumptions': ['values and comparison constants stay inside the range the index was created or auto-sized for (DESIGN 8.0)',
                         'ParOr operands have pairwise disjoint column sets; Add/Increment only on non-negative values; Increment only when values are unscaled',
                         'the harness scaling/unscaling of values by 2^k is exact (math/big)'],
         'trace_module': 'TraceBSI.tla', 'trace_cfg': 'TraceBSI.cfg',
         'phases': [
-            {'kind': 'drive', 'cmd': 'bsi', 'profile': 'update', 'traces': 600 if q else 12000, 'steps': 40, 'shards': 12},
+            {'kind': 'replay', 'cmd': 'bsi', 'model': bsi_model('bsi_step', 'step'), 'kinds': ['x'], 'sample': 0.03 if q else 0.6, 'extra': ['-opfilter', 'update']},
+            {'kind': 'replay', 'cmd': 'bsi', 'model': bsi_model('bsi_hist', 'hist', depth=10, sim={'num': 300 if q else 6000, 'depth': 12, 'seed': 3}),
+             'kinds': ['x'], 'sample': 0.5 if q else 1.0},
+            {'kind': 'drive', 'cmd': 'bsi', 'profile': 'update', 'traces': 1200 if q else 20000, 'steps': 40, 'shards': 12},
         ],
     }
 
@@ -505,13 +518,14 @@ def c19(tier):
 def c20(tier):
     q = tier == 'quick'
     return {
-        'rule': 'BSI.tla query clauses: CompareValue/CompareBigValue (LT LE EQ GE GT RANGE) with found-sets nil / subsets of existing columns / the index own existence bitmap, CompareBSI, BatchEqual/BatchEqualBig/BatchEqualValues (incl. duplicate and cube value lists), MinMax/MinMaxBig, Sum/SumBigValues, Transpose/IntersectAndTranspose, TransposeWithCounts, worker counts 0,1,2,3,16, on stored maps with mixed signs produced by random update histories; every result is compared by TLC with the predicate evaluated on the specified map; each query is issued twice and must answer the same (ResultIndependent), and the stored map must be unchanged by queries',
+        'rule': 'MCBSI.tla (TLC) enumerates every query x operator x in-range constants x found-set from every small map and the calls are replayed on both implementations; BSI.tla query clauses: CompareValue/CompareBigValue (LT LE EQ GE GT RANGE) with found-sets nil / subsets of existing columns / the index own existence bitmap, CompareBSI, BatchEqual/BatchEqualBig/BatchEqualValues (incl. duplicate and cube value lists), MinMax/MinMaxBig, Sum/SumBigValues, Transpose/IntersectAndTranspose, TransposeWithCounts, worker counts 0,1,2,3,16, on stored maps with mixed signs produced by random update histories; every result is compared by TLC with the predicate evaluated on the specified map; each query is issued twice and must answer the same (ResultIndependent), and the stored map must be unchanged by queries',
         'assumptions': ['comparison constants lie inside the hull of the stored values for auto-sized indexes and inside the declared bounds for fixed-width ones',
                         'Transpose* only on non-negative values (values become column ids); TransposeWithCounts (64-bit) is given an explicit filter set',
                         'found sets contain existing columns only'],
         'trace_module': 'TraceBSI.tla', 'trace_cfg': 'TraceBSI.cfg',
         'phases': [
-            {'kind': 'drive', 'cmd': 'bsi', 'profile': 'query', 'traces': 600 if q else 12000, 'steps': 40, 'shards': 12},
+            {'kind': 'replay', 'cmd': 'bsi', 'model': bsi_model('bsi_step', 'step'), 'kinds': ['x'], 'sample': 0.03 if q else 0.6, 'extra': ['-opfilter', 'query']},
+            {'kind': 'drive', 'cmd': 'bsi', 'profile': 'query', 'traces': 1200 if q else 20000, 'steps': 40, 'shards': 12},
         ],
     }
 
